@@ -32,6 +32,7 @@ cls('Storage', file=F + 'base.py', opaque_inv=True,
     ghost={'kind': TInt, 'seen': TInt, 'ids': IdList, 'sx': TArr(TInt, InstT), 'sy': TArr(TInt, TVal)},
     invariant={
         'seen_nonneg': lambda s: s.seen >= 0,
+        'kind_range': lambda s: land(0 <= s.kind, s.kind <= 4),
         'size_pos': lambda s: implies(lor(s.kind == 1, s.kind == 2, s.kind == 3), s.size >= 1),
         'ids_len': lambda s: s.ids.n == s._storage_x.n,
         # number stored = min(seen, capacity)
@@ -239,3 +240,11 @@ fn('UniformReservoirStorage.update', F + 'uniform_reservoir_storage.py', self_cl
    body_ensures={'algoL_step': _algoL_step},
    ghost_update=_hist_step,
    modifies=['_storage_x', '_storage_y', 'stored_samples', '_algo_wt', '_algo_l_counter', 'ids'])
+
+
+# isinstance on the union record: decided by the ghost kind
+CLASSES['Storage'].isinstance_map = {
+    'IntervalStorage': lambda s: s.kind == 1, 'SequenceStorage': lambda s: s.kind == 1, 'BatchStorage': lambda s: s.kind == 0,
+    'UniformReservoirStorage': lambda s: s.kind == 2, 'GeometricReservoirStorage': lambda s: s.kind == 3,
+    'BaseStorage': lambda s: True,
+}
